@@ -917,6 +917,10 @@ class Tr:
                 return lb + rb, f"(str_repeat {l} ({r}))", "hex"
             if lt == "bytes" and rt == "bytes" and isinstance(n.op, ast.Add):
                 return lb + rb, f"({l} ++ {r})", "bytes"
+            if isinstance(n.op, ast.Add) and isinstance(lt, tuple) and isinstance(rt, tuple) and lt[0] == "list" \
+                    and rt[0] == "list" and (lt == rt or None in (lt[1], rt[1])):
+                # concatenation of two lists (a new list)
+                return lb + rb, f"({l} ++ {r})", (lt if lt[1] is not None else rt)
             if lt != "int" or rt != "int":
                 bad(n, f"binary operator on {lt}, {rt}")
             ops = {ast.Add: "{} + {}", ast.Sub: "{} - {}", ast.Mult: "{} * {}",
@@ -1059,6 +1063,12 @@ class Tr:
                     if kb or kt != "bool":
                         bad(n, "sort key that can raise or is not a bool")
                     return xb, f"(stable_sort_by (fun {a.args[0].arg} => {k}) {xs})", xt
+                if f.id == "list" and len(n.args) == 1 and not n.keywords:
+                    # list(xs) of a list: a copy (lists are values here)
+                    b, t, ty = self.E(n.args[0], env)
+                    if not (isinstance(ty, tuple) and ty[0] == "list"):
+                        bad(n, "list() of " + str(ty))
+                    return b, t, ty
                 if f.id == "len" and len(n.args) == 1 and isinstance(n.args[0], ast.Name) \
                         and is_view(env.get(n.args[0].id), "hform"):
                     return [], f"(form_len {n.args[0].id})", "int"
@@ -1770,6 +1780,11 @@ class Tr:
                     text = text.replace(f"@@JV:{kname}:{i}@@", " ".join(args) if jv else "tt")
                 text = f"let {kname} := fun {params} =>\n{ktext} in\n{text}"
             return self.with_bindings(cb, text)
+        if isinstance(s, ast.For):
+            part = self.partition_loop(s, env)
+            if part is not None:
+                text, env2 = part
+                return text + cont(env2)
         if isinstance(s, (ast.While, ast.For)):
             vars_ = [v for v in self.assigned(s.body) if v in env or v == "self"]
             if isinstance(s, ast.For):
@@ -1886,6 +1901,60 @@ class Tr:
             inner = self.B(s.body, env, lambda e: (envb.update({v: e[v] for v in vars_}), f"Ok {pat}")[1])
             return f"{_binder(vars_)} <- {catch_} (\n{inner}) ;;\n" + cont(envb)
         bad(s, "statement")
+
+    def partition_loop(self, s, env):
+        """NORMALISATION.  `for x in xs: if c: a.append(x) [else: b.append(x)]` with a, b local lists that neither xs
+        nor c mention, c a test that cannot raise and has no effect: a grows by the elements of xs that satisfy c, b by
+        the others, each in the order of xs -- rendered with `filter` (what `sorted` on a boolean key, a comprehension
+        with a condition, or this loop all mean).  None when the statement is not of that form."""
+        if s.orelse or not isinstance(s.target, ast.Name) or len(s.body) != 1 or not isinstance(s.body[0], ast.If):
+            return None
+        x = s.target.id
+        iff = s.body[0]
+
+        def appended(stmts):
+            if len(stmts) != 1 or not isinstance(stmts[0], ast.Expr):
+                return None
+            c = stmts[0].value
+            if (isinstance(c, ast.Call) and isinstance(c.func, ast.Attribute) and c.func.attr == "append"
+                    and isinstance(c.func.value, ast.Name) and len(c.args) == 1 and not c.keywords
+                    and isinstance(c.args[0], ast.Name) and c.args[0].id == x):
+                return c.func.value.id
+            return None
+        a = appended(iff.body)
+        b = appended(iff.orelse) if iff.orelse else None
+        if a is None or (iff.orelse and b is None) or a == b:
+            return None
+        lists = [v for v in (a, b) if v is not None]
+        for v in lists:
+            t = env.get(v)
+            if not (isinstance(t, tuple) and t[0] == "list") or v == x:
+                return None
+        mentioned = {n.id for part in (s.iter, iff.test) for n in ast.walk(part) if isinstance(n, ast.Name)}
+        if mentioned & set(lists) or x in {n.id for n in ast.walk(s.iter) if isinstance(n, ast.Name)}:
+            return None
+        ib, it, ity = self.E(s.iter, env)
+        if ib or not (isinstance(ity, tuple) and ity[0] == "list" and ity[1] is not None):
+            return None
+        env_b = dict(env)
+        pat = self.pattern(s.target, ity[1], env_b)
+        cb, c = self.cond(iff.test, env_b)
+        if cb:
+            return None
+        env2 = dict(env)
+        text = ""
+        for v, test in ((a, c), (b, f"negb ({c})")):
+            if v is None:
+                continue
+            t = env[v]
+            if t[1] is not None and t != ity:
+                return None
+            sel = f"(filter (fun {pat} => {test}) {it})"
+            text += f"let {v} := ({v} ++ {sel}) in\n"
+            env2[v] = ity
+        if x in env:
+            return None      # (the loop variable would stay bound to the last element)
+        return text, env2
 
     def generator(self, fd, env):
         """a generator function whose only yield is the body of a for loop that ends the function:
